@@ -260,6 +260,7 @@ class FnVerifier:
 
     def note_violation_flag(self, R, flag, node):
         self.add_obligation(R, "flag", flag, z3.BoolVal(False), clause=flag, line=node.lineno)
+        raise PathEnd()
 
     def as_ctxmgr(self, R, cmv, node, frame):
         if cmv.is_const and isinstance(cmv.z, models.CtxMgr):
@@ -487,6 +488,18 @@ class FnVerifier:
             if seg is None:
                 seg = (ast.get_source_segment(self.src, node) or "").strip()
             if seg.startswith(a["before"]):
+                if "emit" in a:
+                    ev, src = a["emit"][0], a["emit"][1]
+                    val = R.data(R.spec_eval_in_frame(src, frame, {}))
+                    if len(a["emit"]) > 2 and val.t != a["emit"][2]:
+                        saved = R.pure
+                        R.pure = True
+                        try:
+                            val = R.coerce(val, a["emit"][2])
+                        finally:
+                            R.pure = saved
+                    self.emit_log(R, ev, val)
+                    continue
                 g = R.truthy(R.spec_eval_in_frame(a["clause"], frame, {}))
                 self.add_obligation(R, "assert", a["label"], g, clause=a["clause"], line=node.lineno)
 
@@ -665,6 +678,16 @@ class FnVerifier:
         if recv is not None:
             a2 = [recv] + a2
         R.bind_params(fd.args, a2, dict(kwargs), f2, Frame({}, None))
+        for pn, pt in cc.params.items():
+            av = f2.env.get(pn)
+            if av is not None and isinstance(pt, T.Ty) and not pt.heap and pt.kind not in ("nullable", "const") \
+                    and not av.is_const and av.t != pt and av.t.kind != "nullable" and av.t.kind not in ("obj", "drec"):
+                try:
+                    # a union-typed actual narrowed to the declared member; a list passed where the
+                    # callee's contract speaks about a sequence value
+                    f2.env[pn] = R.coerce(R.data(av) if av.t.heap else av, pt)
+                except (EngineError, Unsupported):
+                    pass
         env = dict(R.base_env)
         for dname, dsrc in cc.defs.items():
             env[dname] = const(Closure(self.parse_clause(dsrc), None))
@@ -676,9 +699,13 @@ class FnVerifier:
             g = self.spec_in_env(R, rq, env)
             self.add_obligation(R, "callpre", "%s.%s" % (cname, lbl), R.truthy(g), clause=rq, line=getattr(node, "lineno", None))
             R.assume(R.truthy(g))
-        # termination of recursion
-        if cc is self.c and getattr(cc, "variant", None):
-            pass
+        # termination of recursion: the callee's measure (in its own parameters) is below ours
+        if cc is self.c:
+            if not cc.variant:
+                self.add_obligation(R, "decreases", cname, z3.BoolVal(False), clause="recursive call without a variant", line=getattr(node, "lineno", None))
+            else:
+                v1 = R.to_int(self.spec_in_env(R, cc.variant, env))
+                self.add_obligation(R, "decreases", cname, z3.And(R.entry_variant >= 0, v1 < R.entry_variant, v1 >= 0), clause="variant: " + cc.variant, line=getattr(node, "lineno", None))
         old = R.snapshot()
         # raises
         if cc.raises:
@@ -750,6 +777,8 @@ class FnVerifier:
                         R.cell(base).content[node.attr] = fresh(cur.t, node.attr)
                         continue
             v = self.spec_in_env(R, mx, env)
+            if v.t.kind == "none":
+                continue
             if not v.t.heap:
                 raise EngineError("modifies target %s is not a heap object" % mx)
             for loc in sorted(R.reachable(v)):
@@ -798,6 +827,16 @@ class FnVerifier:
             self.install_ghost_fns(R)
             for lbl, rq in c.requires.items():
                 R.assume(R.truthy(self.spec_in_env(R, rq, R.base_env)))
+            for lbl, ax in c.axioms.items():
+                R.assume(R.truthy(self.spec_in_env(R, ax, R.base_env)))
+                note = ("axiom " + lbl, ax)
+                if note not in self.assumed:
+                    self.assumed.append(note)
+            for ox in c.config.get("order_independent", ()):
+                ov = self.spec_in_env(R, ox, R.base_env)
+                cell = R.heap[ov.z]
+                cell.ghost = dict(cell.ghost or {}, order_independent=True)
+            R.entry_variant = R.to_int(self.spec_in_env(R, c.variant, R.base_env)) if c.variant else None
             R.n_requires = len(R.pc)
             for gname, gsrc in c.ghost_inputs.items():
                 gv = self.spec_in_env(R, gsrc, R.base_env)
@@ -905,6 +944,17 @@ class FnVerifier:
                 try:
                     g = R.truthy(self.spec_in_env(R, en, env))
                 except ClauseVacuous:
+                    continue
+                self.add_obligation(R, "ensures", lbl, g, clause=en)
+            for lbl, en in c.ensures_locals.items():
+                try:
+                    names = {n.id for n in ast.walk(self.parse_clause(en)) if isinstance(n, ast.Name)}
+                    if any(frame.lookup(n) is UNDEFINED or (n in c.locals and frame.lookup(n) is None) for n in names):
+                        continue
+                    g = R.truthy(R.spec_eval_in_frame(en, frame, {"result": payload}))
+                except ClauseVacuous:
+                    continue
+                except Unsupported:
                     continue
                 self.add_obligation(R, "ensures", lbl, g, clause=en)
             self.frame_events(R)
